@@ -49,9 +49,9 @@ def build(seed, tier):
     st = seeds.streams(seed)
     rc = st[seeds.CONFIG]
     h = histories.gen_history(st, n_ops=rc.randint(1, 12), fault_rate=0.3, fault_classes=FAULT_CLASSES,
-                              threaded_rate=0.1, size=rc.randint(0, 4), exotic_args=False, before_after=True)
+                              threaded_rate=0.1, size=rc.randint(0, 4), exotic_args=False, before_after=True, extra_file=rc.random() < 0.3)
     tracer = rc.choice(['none', 'none', 'native', 'calls'])
-    return {'files': h['files'], 'ops': h['ops'], 'config': {'tracer': tracer, 'ref': True},
+    return {'files': h['files'], 'ops': h['ops'], 'config': {'tracer': tracer, 'ref': True, 'allow_print': rc.random() < 0.15},
             'meta': {'tracer': tracer, 'seed': seed}}
 
 
